@@ -211,8 +211,10 @@ def real_group(d):
     return getattr(d.group, "group", d.group)
 
 
-def scan(tag, mol):
-    """-> list of (signature, what, replay-dict)"""
+def scan(tag, mol, shared=False):
+    """-> list of (signature, what, replay-dict).  `shared`: the run used shared_determinants 1 - the members of a covalently coupled system then
+    carry each other's determinants by design, so for a system that mixes acids and bases (N+ / ASP of one residue) the sign statements, which the
+    property makes for the shipped configuration, are not applicable to the copied determinants; systems of like-charged members are checked."""
     import propka.energy as E
     out = []
     for cname in list(mol.conformation_names) + (["AVR"] if len(mol.conformation_names) > 1 else []):
@@ -223,6 +225,8 @@ def scan(tag, mol):
         tit = conf.get_titratable_groups()
         for g in tit:
             q = g.charge
+            if shared and any(h.charge * q < 0 for h in g.covalently_coupled_groups):
+                continue
             who = f"{tag}/{cname} {g.label.strip()} ({'acid' if q < 0 else 'base'}, {g.type})"
             if q * g.energy_volume > EPS:
                 out.append(("desolvation-sign", f"{who}: desolvation {g.energy_volume:+.4f} " + ("lowers an acid's" if q < 0 else "raises a base's") + " pKa",
@@ -509,7 +513,7 @@ def run(chk: common.Check):
             chk.count(1, key=("case", name, ndets))
             chk.cov["determinants_scanned"] = chk.cov.get("determinants_scanned", 0) + ndets
             chk.cov["ion_groups"] = chk.cov.get("ion_groups", 0) + nion
-            for sig, what, rep in scan(name, mol):
+            for sig, what, rep in scan(name, mol, shared="shared_determinants 1" in name):
                 rep = dict(rep, case=name, options=opts, pdb_text=text if len(text) < 300000 else None)
                 found.append((sig, what, rep))
             if not missing and (ndes < (2000 if chk.thorough else 250)):
